@@ -152,7 +152,9 @@ def revoke_graph(ctx, prog):
     sw = None
     for sb, place, targets, otherwise in lib.discr_switches(rr):
         if "ReactorType" in lib.place_type(rr, place):
-            sw = sb
+            ea_ = lib.enum_arms(rr, prog, sb)
+            if ea_ and ea_[2].endswith("::ReactorType"):       # not e.g. the Option<&ReactorType> of the iterator
+                sw = sb
     if sw is None:
         ctx.fail("C01.a", "revoke_reactor:anchor-lost:match", "%s:%d" % (rr.file, rr.line), "no match on ReactorType")
         return None
